@@ -1013,6 +1013,30 @@ static int vnadata_save_common(vnadata_t *vdp, FILE *fp, const char *filename,
 		    _vnadata_format_to_name(vfdp));
 	    goto out;
 	}
+	switch (fptype) {
+	case VPT_T:
+	case VPT_U:
+	case VPT_H:
+	case VPT_G:
+	case VPT_A:
+	case VPT_B:
+	    /*
+	     * These parameter types are defined for two ports only.
+	     * Refuse here so that vnadata_cksave gives the same answer
+	     * vnadata_convert will give in vnadata_save.
+	     */
+	    if (rows != 2 || ports != 2) {
+		_vnadata_error(vdip, VNAERR_USAGE, "%s: cannot convert "
+			"%d x %d %s parameters for format %s: two ports required",
+			function, rows, ports, vnadata_get_type_name(type),
+			_vnadata_format_to_name(vfdp));
+		goto out;
+	    }
+	    break;
+
+	default:
+	    break;
+	}
     }
 
     /*
